@@ -167,6 +167,8 @@ Inductive case :=
 (* a real TaskRunner.Ensure pass: tasks with a tomb before (with cleanup flag), tasks with a do/undo tomb after,
    tasks that were runnable (Do status, no tomb, nothing to wait for) before the pass and still have no tomb after *)
 | CPass (before : tombs) (after_handlers : list task) (idle : list task) (some_blocked : bool)
+(* the same after TaskRunner.SetBlocked replaced the predicate list by the driver's predicate number p *)
+| CPassP (p : N) (before : tombs) (after_handlers : list task) (idle : list task) (some_blocked : bool)
 (* the predicates registered in another order (devicestate, ifacestate, snapstate after hookstate): observed disjunction *)
 | CBlockedAny (t : task) (running : list task) (observed : bool)
 (* the set of handlers executing at one instant (recorded when a handler starts) *)
@@ -177,19 +179,28 @@ Inductive case :=
 Definition subset_ids (a b : list task) : bool :=
   forallb (fun x => existsb (fun y => N.eqb (t_id x) (t_id y)) b) a.
 
+(* the predicates the driver installs with SetBlocked: 0 = never blocked, 1 = one task at a time *)
+Definition driver_pred (p : N) : pred :=
+  match p with
+  | 0%N => fun _ _ => false
+  | _ => fun _ running => negb (is_nil_b running)
+  end.
+
+(* an Ensure pass is order dependent; what every iteration order satisfies, for a monotone predicate `bl`:
+   r.someBlocked is set exactly when some runnable task was skipped, i.e. left idle; whatever was left idle is blocked by
+   the final running set; whatever was started was not blocked by the tasks that had a tomb before the pass (every one of
+   them, whatever its status: `running` is built from r.tombs) *)
+Definition pass_mismatch (bl : task -> list task -> bool) (before : tombs) (after_h idle : list task) (sb : bool) : bool :=
+  negb (Bool.eqb sb (negb (is_nil_b idle))) ||
+  negb (forallb (fun t => bl t (map fst before ++ after_h)) idle) ||
+  negb (forallb (fun t => has_tomb (t_id t) before || negb (bl t (map fst before))) after_h).
+
 Definition mismatch (c : case) : bool :=
   match c with
   | CBlocked t running observed => negb (list_eqb Bool.eqb (verdicts t running) observed)
   | CBlockedAny t running observed => negb (Bool.eqb (blocked t running) observed)
-  | CPass before after_h idle sb =>
-      (* r.someBlocked is set exactly when some runnable task was skipped by a predicate, i.e. left idle *)
-      negb (Bool.eqb sb (negb (is_nil_b idle))) ||
-      (* the pass is order dependent; what every order satisfies: whatever was left idle is blocked by the final
-         running set (the predicates are monotone), and what was started is not blocked by what ran before *)
-      negb (forallb (fun t => blocked t (map fst before ++ after_h)) idle) ||
-      (* ... and whatever was started in this pass was not blocked by the tasks that had a tomb before it (every one of
-         them, whatever its status: `running` is built from r.tombs) *)
-      negb (forallb (fun t => has_tomb (t_id t) before || negb (blocked t (map fst before))) after_h)
+  | CPass before after_h idle sb => pass_mismatch blocked before after_h idle sb
+  | CPassP p before after_h idle sb => pass_mismatch (blocked_by (set_blocked (driver_pred p))) before after_h idle sb
   | CExec _ => false
   | CTombs _ => false
   end.
@@ -234,6 +245,7 @@ Definition monitor_fail (c : case) : bool :=
       spec_excl running && negb (existsb (fun b => b) observed) && negb (spec_excl (running ++ [t]))
   | CBlockedAny t running observed => spec_excl running && negb observed && negb (spec_excl (running ++ [t]))
   | CPass before after_h idle _ => spec_excl (handlers before) && negb (spec_excl after_h)
+  | CPassP _ _ _ _ _ => false      (* with a replaced predicate list the exclusions are not promised *)
   | CExec executing => negb (spec_excl executing)
   | CTombs tb => negb (spec_excl (handlers tb))
   end.
